@@ -1,2 +1,33 @@
+"""Structural signatures of recorded C08 findings."""
+from oracles import rdr
+
+
+def kind_of_branch(block, index):
+    """how the branch with the given number is attached: 'root', 'ref', 'alt' or 'next'"""
+    found = {}
+
+    def walk(nb, how):
+        i, has_c, ref, fol = nb
+        found[i] = how
+        if ref is not None:
+            walk(ref, "ref")
+        for kind, fb in fol:
+            walk(fb, kind)
+    walk(rdr.number(block), "root")
+    return found.get(index)
+
+
 def classify(case, failure):
+    if case and case[0] == "style" and failure.kind == "wrong-conclusions":
+        style, block = case[1], case[2]
+        # C08-F5: a quantifier as the base condition of a rule tree: it yields nothing (instead of a false result) when
+        # it does not hold, and its witness is part of the bindings the conclusions are remembered by
+        if style == "exists_base":
+            return "C08/quantifier-as-base-condition"
+        # C08-F6: one condition object used for two branches: both branches' conclusions are attached to the one node
+        if style == "shared_1_2":
+            return "C08/condition-object-shared-by-two-branches"
+        # C08-F7: a next_rule whose condition binds none of the base variables (here: the constant True)
+        if style == "last_true" and kind_of_branch(block, rdr.size(block) - 1) == "next":
+            return "C08/next-rule-condition-without-base-variables"
     return None
